@@ -5,7 +5,9 @@ from ..explore import bfs
 LEVEL = 'model_checking'
 
 # (universe, max depth | None = closure, link bound | None)
-QUICK = [('U2', None, None), ('U3', None, None), ('U3dq', None, None), ('U4l', 3, None), ('U4e', None, None), ('U4o', None, None)]
+QUICK = [('U2', None, None), ('U3', None, None), ('U3dq', None, None), ('U4l', 3, None), ('U4e', None, None), ('U4o', None, None),
+         # constructor arguments (parent=, children=, predecessors=, successors= in one call): two steps deep
+         ('U3c', 2, None)]
 THOROUGH = [('U2', None, None), ('U3', None, None), ('U3d', None, None), ('U4l', None, None), ('U3c', None, None),
             ('U4e', None, None), ('U4s', None, None), ('U4', None, 1), ('U4d', None, 1)]
 
